@@ -46,6 +46,10 @@ Decided (DESIGN.md section 5, C06):
                                            segmentation) is only called by the wrappers, by Decompressor::read overrides and inside
                                            an accumulating loop; parser code reads fixed-size fields through read_exactly and
                                            branches on its result
+           F3-descriptor-read-not-suppressed  in a Decompressor::read() that reads a descriptor the OS read is reached on every
+                                           path except through the constructor-fixed mode test (in-memory vs. fd): the empty piece
+                                           (= end of data) only comes from a read that returned 0, never from state remembered from
+                                           the length of an earlier (short) read
            F2-read-exactly-accumulates     read_exactly reports success only with remaining == 0, reads `remaining` bytes at
                                            buffer + (size - remaining), decreases remaining every iteration, fails only on a
                                            zero-byte read
@@ -1509,6 +1513,7 @@ def fd_rules(fb, R):
             if fn.usr in producers:
                 R.ok('F1-fd-read-is-exact', key, site, 'stream producer (Decompressor::read override or its private helper): a short read '
                      'is a shorter piece')
+                _producer_read_not_suppressed(fb, fn, c, R)
                 continue
             inloop = [l for l in fn.loops if fn.in_range(c['id'], l['b'], l['e'])]
             if not inloop:
@@ -1531,6 +1536,62 @@ def fd_rules(fb, R):
             tested = _result_use(fn, c)[0] in ('cond', 'returned')
             R.check(tested, 'F1-fd-read-is-exact', key, fn.loc(c['id']),
                     '%s ignores whether %s delivered all requested bytes' % (fn.q, _short(c['q'])), 'exact read, result branches')
+
+
+def _producer_read_not_suppressed(fb, fn, c, R):
+    """F3: in a stream producer the empty piece means end of data, so it may only come from an OS read that returned 0.  The
+    single-shot read must therefore be reached on every normal path of the producer, except through the mode test that selects
+    the in-memory variant: a branch condition that only reads members which are fixed by the constructors.  Any other way around
+    the read (a flag remembered from the LENGTH of an earlier read -- a short read on a pipe is not end of file --, a counter, an
+    early return) makes the stream end where a short read happened to occur."""
+    methods = [f for f in fb.functions if f.has_cfg and f.cls == fn.cls and not f.is_lambda]
+    written = set()
+    for m in methods:
+        if m.kind == 'ctor':
+            continue
+        for n in m.all_nodes():
+            tgt = None
+            if n.get('k') == 'assign':
+                tgt = m.sn(n['lhs'])
+            elif n.get('k') == 'unop' and n.get('op') in ('++', '--'):
+                tgt = m.sn(n['sub'])
+            elif n.get('k') == 'call' and n.get('op') in ('=', '+=', '-=', '++', '--') and n.get('recv') is not None:
+                tgt = m.sn(n['recv'])
+            if tgt is not None and tgt.get('k') == 'member' and tgt.get('field'):
+                written.add(tgt['q'])
+
+    def mode_test(cid):
+        """condition over constructor-fixed members only (no calls, no locals, no parameters)"""
+        fields = 0
+        for x in fn.subtree(cid):
+            nx = fn.nodes[x]
+            k = nx.get('k')
+            if k == 'member' and nx.get('field'):
+                if nx['q'] in written or not fn.is_this_member(x):
+                    return False
+                fields += 1
+            elif k in ('call', 'construct', 'var') and not (k == 'var' and nx.get('vk') in ('enumconst', 'global', 'static_member')):
+                return False
+        return fields > 0
+    pruned = set()
+    for (cnd, sense, b) in guards_of(fn, c['id']):
+        blk = fn.blocks[b]
+        if blk.get('cond') is not None and fn.strip(blk['cond']) == fn.strip(cnd) and mode_test(cnd):
+            pruned.add((b, 1 if sense else 0))     # the edge into the other (in-memory) variant
+        elif mode_test(cnd):
+            atom, neg = _cond_atom(fn, blk.get('cond')) if blk.get('cond') is not None else (None, False)
+            if atom is not None and atom['id'] == (fn.sn(cnd) or {}).get('id'):
+                val = sense != neg
+                pruned.add((b, 1 if val else 0))
+    cid = c['id']
+    wit = path_search(fn, fn.entry, _exit_t, lambda e: e == cid or _is_throw(fn, e),
+                      _normal_edges(fn, lambda b, idx, s_: (b, idx) not in pruned), from_block_start=True)
+    R.check(wit is None, 'F3-descriptor-read-not-suppressed', '%s#descriptor-read-unconditional' % fn.q, fn.loc(cid),
+            'in descriptor mode %s can return without calling %s (path: %s): an empty piece = end of data is then produced without a read '
+            'that returned 0; only the constructor-fixed mode test may guard the read -- state remembered from an earlier read (e.g. "the '
+            'last read was short") must not, because on a pipe / socket a short read is not end of file and everything after it would be '
+            'dropped' % (fn.q, c['q'], describe_path(fn, wit)),
+            'the OS read is reached on every path outside the in-memory variant')
 
 
 def _accumulating_reader(fn, c, R):
@@ -1720,6 +1781,7 @@ def run(ctx):
     R.expect('X3-xml-parse-args', 1)
     R.expect('T1-read-thread-forwards-piece', 1)
     R.expect('F1-fd-read-is-exact', 5)               # reliable_read->read, read_exactly->reliable_read, NoDecompressor::read, 2 PBF fd reads
+    R.expect('F3-descriptor-read-not-suppressed', 1)  # NoDecompressor::read (descriptor mode)
     R.expect('F2-read-exactly-accumulates', 3)       # read_exactly: until-complete, appends-at-offset, fails-only-at-eof
 
 
@@ -1731,4 +1793,5 @@ SELFTESTS = [(r, 'c06_chunking.cpp', _selftest) for r in (
     'W1-window-rederived', 'W2-refill-result-decides', 'W3-no-stale-local', 'M1-carry-over-mutation-whitelist', 'M2-piece-kept',
     'M3-erase-is-consumed-prefix', 'M4-ensure-pop-paired', 'M5-refill-until-needed', 'M6-held-bytes-delivered',
     'W4-varint-read-window-refilled', 'E1-refill-cycle-tests-end-of-input', 'E2-failure-exit-guarded-by-end-of-input', 'E3-piece-loop-exits-at-end-of-input', 'X2-xml-final-flag-from-queue-state',
-    'X3-xml-parse-args', 'T1-read-thread-forwards-piece', 'F1-fd-read-is-exact', 'F2-read-exactly-accumulates')]
+    'X3-xml-parse-args', 'T1-read-thread-forwards-piece', 'F1-fd-read-is-exact', 'F2-read-exactly-accumulates',
+    'F3-descriptor-read-not-suppressed')]
